@@ -108,6 +108,7 @@ fn strip_commands(p: &Project) -> Project {
             .iter()
             .map(|(n, c)| (n.clone(), c.replace("#[tauri::command]", "").replace("#[command]", "")))
             .collect(),
+        links: vec![],
     }
 }
 fn strip_events(p: &Project) -> Project {
@@ -117,6 +118,7 @@ fn strip_events(p: &Project) -> Project {
             .iter()
             .map(|(n, c)| (n.clone(), c.replace(".emit(", ".emit_not(")))
             .collect(),
+        links: vec![],
     }
 }
 
